@@ -9,7 +9,7 @@ func init() {
 		Scope: Scope{Include: []string{"pkg/mpc/", "pkg/network/mpc.go", "pkg/base/errors.go"}, Exclude: []string{"pkg/mpc/sharing/"}}})
 	register(&propSpec{ID: "C05", SeqScope: Scope{Include: []string{"pkg/mpc/sharing/vss/", "pkg/mpc/sharing/scheme/kw/", "pkg/mpc/base.go"}}, MinSeq: 20, MinFuncs: 20, Check: checkC05,
 		Scope: Scope{Include: []string{"pkg/mpc/sharing/vss/", "pkg/mpc/sharing/scheme/kw/", "pkg/base/mat/module_valued.go", "pkg/mpc/base.go"}}})
-	register(&propSpec{ID: "C06", SeqScope: Scope{Include: []string{"pkg/mpc/redistribute/", "pkg/mpc/zero/hjky/"}}, MinSeq: 8, StoreScope: Scope{Include: []string{"pkg/mpc/redistribute/", "pkg/mpc/zero/hjky/"}}, MinStores: 3, MinFuncs: 8, Check: checkC06,
+	register(&propSpec{ID: "C06", Extra: []extraScope{{"vss", Scope{Include: []string{"pkg/mpc/sharing/vss/"}}, 10}}, SeqScope: Scope{Include: []string{"pkg/mpc/redistribute/", "pkg/mpc/zero/hjky/"}}, MinSeq: 8, StoreScope: Scope{Include: []string{"pkg/mpc/redistribute/", "pkg/mpc/zero/hjky/"}}, MinStores: 3, MinFuncs: 8, Check: checkC06,
 		Scope: Scope{Include: []string{"pkg/mpc/redistribute/", "pkg/mpc/zero/hjky/"}}})
 	register(&propSpec{ID: "C07", MinFuncs: 150, MinFrame: 30, Check: checkC07,
 		Scope:      Scope{Include: []string{"pkg/mpc/", "pkg/ot/"}, Exclude: []string{"pkg/mpc/sharing/"}},
@@ -22,7 +22,7 @@ func init() {
 		Scope: Scope{Include: []string{"pkg/mpc/session/", "pkg/mpc/zero/przs/", "pkg/commitments/hashcom/"}}})
 	register(&propSpec{ID: "C11", SeqScope: Scope{Include: []string{"pkg/"}, KeyRe: regexp.MustCompile(`\.Run$|^pkg/network/exchange\.|^pkg/network/echo\.|^pkg/network\.(Send|Receive)`)}, MinSeq: 12, StoreScope: Scope{Include: []string{"pkg/network/"}}, MinStores: 1, MinFuncs: 20, Check: checkC11,
 		Scope: Scope{Include: []string{"pkg/network/"}}})
-	register(&propSpec{ID: "C12", MinFuncs: 100, Check: checkC12,
+	register(&propSpec{ID: "C12", Extra: []extraScope{{"ctors", Scope{Include: []string{"pkg/base/nt/znstar/", "pkg/base/nt/num/"}, KeyRe: regexp.MustCompile(`\.New[A-Z]\w*$|\.From\w+$`)}, 10}}, MinFuncs: 100, Check: checkC12,
 		Scope: Scope{Include: []string{"pkg/"}, KeyRe: regexp.MustCompile(`\.UnmarshalCBOR$|^pkg/base/serde\.`)}})
 	register(&propSpec{ID: "C13", SeqScope: Scope{Include: []string{"pkg/base/curves/"}, Exclude: []string{"pkg/base/curves/impl/rfc9380/"}}, MinSeq: 40, MinFuncs: 60, Check: checkC13,
 		Scope: Scope{Include: []string{"pkg/base/curves/"}, Exclude: []string{"pkg/base/curves/impl/rfc9380/"}}})
@@ -44,11 +44,13 @@ func genericGuards(r *Run) {
 		return
 	}
 	r.CheckGuardInventory(r.Prop+".G1", r.Prop+"_guards.json", spec.Scope, spec.MinFuncs)
+	r.CheckNoNewFilter(r.Prop+".G5", r.Prop+"_guards.json", spec.Scope)
 	if r.Prop != "C12" {
 		r.CheckCondInventory(r.Prop+".K1", r.Prop+"_conds.json", spec.Scope, spec.MinFuncs/2)
 	}
 	for _, x := range spec.Extra {
 		r.CheckGuardInventory(r.Prop+".G1", r.Prop+"_"+x.Name+"_guards.json", x.Scope, x.Min)
+		r.CheckNoNewFilter(r.Prop+".G5", r.Prop+"_"+x.Name+"_guards.json", x.Scope)
 		r.CheckCondInventory(r.Prop+".K1", r.Prop+"_"+x.Name+"_conds.json", x.Scope, x.Min/2)
 		r.CheckCallSeq(r.Prop+".Q1", r.Prop+"_"+x.Name+"_calls.json", x.Scope, x.Min/2, false)
 	}
